@@ -13,26 +13,23 @@ open Wz Wz.C08L
 class, the mutator names of its mutable base (found behaviourally) and the names the immutable
 class answers with `TypeError` leaving the object unchanged. -/
 
-/-- the two (class, method) pairs that are *not* blocked in the unchanged tree: findings F08e, F08f -/
-def immExceptions : List (String × String) := [("ImmutableList", "clear"), ("EnvironHeaders", "clear")]
-
 def immBlocksAll (except : List (String × String)) : Bool :=
   Gen.Containers.immTable.all fun (cls, _, muts, blocked) =>
     muts.all fun m => blocked.contains m || except.contains (cls, m)
 
 /-- Every mutator of `list` / `dict` / `TypeConversionDict` / `MultiDict` / `Headers` is answered
 with TypeError (object unchanged) by `ImmutableList`, `ImmutableDict`, `ImmutableTypeConversionDict`,
-`ImmutableMultiDict`, `CombinedMultiDict`, `EnvironHeaders` — except the two `clear` methods listed in
-`immExceptions`. (`decide` over the regenerated table.) -/
-theorem immutable_blocks_all_partial : immBlocksAll immExceptions = true := by decide
+`ImmutableMultiDict`, `CombinedMultiDict`, `EnvironHeaders` — full strength, no exception
+(`decide` over the regenerated table; the former holes `ImmutableList.clear` / `EnvironHeaders.clear`,
+F08e / F08f, were repaired by 1433786). -/
+theorem immutable_blocks_all : immBlocksAll [] = true := by decide
 
-/-- The full statement ("every mutator is blocked") is false on this tree: `ImmutableList.clear`
-empties the list and `EnvironHeaders.clear` returns silently (F08e, F08f). -/
-theorem immutable_blocks_all_full_false : ¬ (immBlocksAll [] = true) := by decide
-
-/-- ... and each listed exception really is an unblocked mutator (the exception list is minimal). -/
-theorem immutable_exceptions_minimal :
-    immBlocksAll [("ImmutableList", "clear")] = false ∧ immBlocksAll [("EnvironHeaders", "clear")] = false := by
+/-- the table is not vacuous: every class has mutators, and `clear` is among the mutators that are
+checked for `ImmutableList` and `EnvironHeaders` (the F08e / F08f regressions) -/
+theorem immutable_table_covers_clear :
+    Gen.Containers.immTable.all (fun (_, _, muts, _) => !muts.isEmpty) = true ∧
+    (Gen.Containers.immTable.filter (fun (cls, _, muts, _) =>
+      (cls == "ImmutableList" || cls == "EnvironHeaders") && muts.contains "clear")).length = 2 := by
   decide
 
 /-! ## MultiDict refines the insertion-ordered multimap -/
